@@ -280,12 +280,15 @@ func (r *bucketRunner) Step(t []string) string {
 		}
 		r.mk(t[1], n)
 		return "ok"
-	case "get":
+	case "get", "getraw":
 		a, ok := ints(t, 1)
 		if !ok {
 			return "bad-op"
 		}
 		v, ex := r.b.Get(a[0])
+		if !ex && t[0] == "get" {
+			v = 0 // Go convention: the value is meaningless when exists == false (`getraw` shows it)
+		}
 		return fmt.Sprintf("%d %s", v, boolStr(ex))
 	case "set":
 		a, ok := ints(t, 2)
@@ -332,6 +335,11 @@ func (r *bucketRunner) Step(t []string) string {
 
 func bucketGen(rng *proto.RNG, tier string, shard, nshards int, w *bufio.Writer) {
 	e := &emitter{w: w, shard: shard, nshards: nshards}
+	// strict plain-map reading of Get on a deleted / never-set key (value must be the zero value)
+	for _, kind := range []string{"b", "m"} {
+		e.emit([]string{"new " + kind + " 2", "getraw 1", "set 1 14", "del 1", "getraw 1", "len"})
+		e.emit([]string{"new " + kind + " 1", "set 0 11", "set 1 12", "del 1", "getraw 1", "getraw 0", "getraw 5"})
+	}
 	maxLen := 5
 	if tier == "thorough" {
 		maxLen = 6
